@@ -382,17 +382,20 @@ func c14Tokens() ([]c14Tok, []c14Tok) {
 		ops = append(ops, c14Tok{kind: "op", op: c14Infix[vChoose("op", len(c14Infix))]})
 		leaves = append(leaves, leaf())
 	}
-	// one parenthesised proper sub-range of leaves [i..j], or none
+	// one parenthesised sub-range of leaves [i..j] (a single leaf and the whole sentence included), or none;
+	// the group is written once or, when the family says so, up to three times nested: ((...))
 	type rng struct{ i, j int }
 	ranges := []rng{{-1, -1}}
 	for i := 0; i <= n; i++ {
-		for j := i + 1; j <= n; j++ {
-			if !(i == 0 && j == n) {
-				ranges = append(ranges, rng{i, j})
-			}
+		for j := i; j <= n; j++ {
+			ranges = append(ranges, rng{i, j})
 		}
 	}
 	pr := ranges[vChoose("parens", len(ranges))]
+	depth := 1
+	if pr.i >= 0 && vParamOpt("parendepth") > 1 {
+		depth = 1 + vChoose("paren-depth", vParamOpt("parendepth"))
+	}
 	neg := vChoose("negated-leaf", n+2) - 1 // -1: none, else index of the leaf that gets a '!'
 	var toks, rtoks []c14Tok
 	both := func(t c14Tok) { toks = append(toks, t); rtoks = append(rtoks, t) }
@@ -401,7 +404,9 @@ func c14Tokens() ([]c14Tok, []c14Tok) {
 			both(ops[k-1])
 		}
 		if k == pr.i {
-			both(c14Tok{kind: "("})
+			for d := 0; d < depth; d++ {
+				both(c14Tok{kind: "("})
+			}
 		}
 		if k == neg {
 			both(c14Tok{kind: "!"})
@@ -409,7 +414,9 @@ func c14Tokens() ([]c14Tok, []c14Tok) {
 		toks = append(toks, leaves[k].toks...)
 		rtoks = append(rtoks, leaves[k].ref)
 		if k == pr.j {
-			both(c14Tok{kind: ")"})
+			for d := 0; d < depth; d++ {
+				both(c14Tok{kind: ")"})
+			}
 		}
 	}
 	return toks, rtoks
@@ -446,6 +453,22 @@ func VerifC14Expression() {
 	vCover("sentence")
 	var expr biscuit.Expression
 	ast.ToExpr(&expr, ParametersMap{})
+	// structure: the operation sequence is the post-order of the documented tree, every group kept
+	if vParam("methods") == 0 {
+		var shape []biscuit.Op
+		c14Postfix(ref, &shape)
+		vAssert(len(shape) == len(expr), "C14.structure")
+		if len(shape) == len(expr) {
+			for i := range shape {
+				if _, isLeaf := shape[i].(biscuit.Value); isLeaf {
+					_, isValue := expr[i].(biscuit.Value)
+					vAssert(isValue, "C14.structure")
+				} else {
+					vAssert(shape[i] == expr[i], "C14.structure")
+				}
+			}
+		}
+	}
 	syms := &datalog.SymbolTable{}
 	dl := biscuit.VerifConvertExpression(expr, syms)
 	res, err := dl.Evaluate(map[datalog.Variable]*datalog.Term{}, syms)
@@ -559,4 +582,27 @@ func VerifC14Errors() {
 		vAssert(err3 != nil, "C14.error-reported-policy")
 	}
 	_ = p2
+}
+
+// operator codes as documented (the reference does not go through operatorMap / ToExpr)
+var c14BinaryOps = map[string]biscuit.BinaryOp{"||": biscuit.BinaryOr, "&&": biscuit.BinaryAnd, "<=": biscuit.BinaryLessOrEqual,
+	">=": biscuit.BinaryGreaterOrEqual, "<": biscuit.BinaryLessThan, ">": biscuit.BinaryGreaterThan, "==": biscuit.BinaryEqual,
+	"+": biscuit.BinaryAdd, "-": biscuit.BinarySub, "*": biscuit.BinaryMul, "/": biscuit.BinaryDiv}
+
+// c14Postfix: post-order of the reference tree as an operation sequence (leaves as empty Values).
+func c14Postfix(n *c14Node, out *[]biscuit.Op) {
+	switch n.op {
+	case "":
+		*out = append(*out, biscuit.Value{})
+	case "()":
+		c14Postfix(n.l, out)
+		*out = append(*out, biscuit.UnaryParens)
+	case "!":
+		c14Postfix(n.l, out)
+		*out = append(*out, biscuit.UnaryNegate)
+	default:
+		c14Postfix(n.l, out)
+		c14Postfix(n.r, out)
+		*out = append(*out, c14BinaryOps[n.op])
+	}
 }
